@@ -2,9 +2,12 @@
    The supergraph search is outside the repository: its result enters through Graph.timings and is validated on every instance by the extracted
    boolean checker check_schedule (per running slot: it carries a vertex of its own kind with that vertex's seq / times / window as apply_window
    computes it; no vertex twice; stateful predecessor and every window producer strictly earlier in (partition, generation) order; supervisor
-   vertex p closes partition p; at most one slot of a kind per generation).  apply_window itself is specified for every graph. *)
+   vertex p closes partition p; at most one slot of a kind per generation).  apply_window itself is specified for every graph.
+   rex.utils.to_timings is inside the model (ToTimings.v): under the decidable contract check_mono of the partitioner's monomorphism the schedule it builds
+   is accepted by check_schedule (to_timings_valid); the model's schedule is compared with rex's Timings on every instance (TTMATCH), check_mono is evaluated
+   on every instance (CHECKMONO). *)
 From Coq Require Import List Arith ZArith Bool.
-From Rex Require Import CompiledModel WindowSpec WindowPush ScheduleSpec ScheduleCover.
+From Rex Require Import CompiledModel WindowSpec WindowPush ScheduleSpec ScheduleCover ToTimings ToTimingsLaws.
 Open Scope Z_scope.
 
 (* soundness of the extracted validator: an accepted schedule satisfies ValidSchedule (every running slot carries a vertex of its own kind with that vertex's seq, times and window; no vertex twice; predecessor step and every window producer strictly earlier; supervisor step p closes partition p; one slot per kind and generation) *)
@@ -51,4 +54,44 @@ Print Assumptions C07_apply_window_spec.
 Theorem C07_window_is_lastn : forall (X : Type) (w0 : list X) (gs : list (list X)), fold_left push_all gs w0 = lastn (length w0) (w0 ++ concat gs).
 Proof. exact @window_is_lastn. Qed.
 Print Assumptions C07_window_is_lastn.
+
+(* rex.utils.to_timings (model): if the partitioner's monomorphism satisfies the decidable contract check_mono (slot of the vertex's kind, vertex exists, (slot, partition) and vertex injective, previous step and every window producer mapped strictly earlier in (partition, generation) order, supervisor step k in partition k / last generation, one slot per kind and generation) then the schedule to_timings builds passes check_schedule - for every graph, window size, number of partitions and monomorphism *)
+Theorem C07_to_timings_valid : forall (I : inst) (tmpl : list (nat * nat)) (M : list mentry), check_mono I tmpl M = true -> check_schedule (set_slots I (to_timings I tmpl M)) = true.
+Proof. exact @to_timings_valid. Qed.
+Print Assumptions C07_to_timings_valid.
+
+(* ... and therefore satisfies ValidSchedule (every vertex once, in dependency order) *)
+Theorem C07_to_timings_ValidSchedule : forall (I : inst) (tmpl : list (nat * nat)) (M : list mentry), check_mono I tmpl M = true -> ValidSchedule (set_slots I (to_timings I tmpl M)).
+Proof. exact @to_timings_ValidSchedule. Qed.
+Print Assumptions C07_to_timings_ValidSchedule.
+
+(* exactly the mapped vertices inside the horizon run, each in the partition / generation it was mapped to, with its own seq, times and windows *)
+Theorem C07_to_timings_run_cells : forall (I : inst) (tmpl : list (nat * nat)) (M : list mentry), check_mono I tmpl M = true -> forall (n : nat) (k : Z) (p g : nat) (c : cell), In (n, k, p, g, c) (run_cells (set_slots I (to_timings I tmpl M))) <-> (exists m : mentry, In m (MH I M) /\ n = m_kind m /\ k = m_seq m /\ p = m_part m /\ g = tgen tmpl (m_slot m) /\ c = filled_cell I n k).
+Proof. exact @to_timings_run_cells. Qed.
+Print Assumptions C07_to_timings_run_cells.
+
+(* the cell of a mapped vertex carries that vertex (needs only injectivity on (slot, partition)) *)
+Theorem C07_to_timings_mapped : forall (I : inst) (tmpl : list (nat * nat)) (M : list mentry) (m : mentry) (kind : nat), nodupb ps_eqb (MH I M) = true -> In m M -> inh I m = true -> (m_slot m < length tmpl)%nat -> tt_cell I M (m_slot m) kind (m_part m) = filled_cell I kind (m_seq m).
+Proof. exact @to_timings_mapped. Qed.
+Print Assumptions C07_to_timings_mapped.
+
+(* a (slot, partition) no vertex is mapped to does not run and carries default windows *)
+Theorem C07_to_timings_unmapped : forall (I : inst) (M : list mentry) (s kind p : nat), (forall m : mentry, In m M -> hits I s p m = false) -> tt_cell I M s kind p = empty_cell I kind.
+Proof. exact @to_timings_unmapped. Qed.
+Print Assumptions C07_to_timings_unmapped.
+
+(* non-vacuity: a concrete two-node instance (sensor at twice the supervisor's rate, window 2, 3 partitions) whose monomorphism satisfies check_mono *)
+Theorem C07_to_timings_example_contract : check_mono exI exT exM = true.
+Proof. exact @ex_mono. Qed.
+Print Assumptions C07_to_timings_example_contract.
+
+(* ... and the theorem instantiated on it *)
+Theorem C07_to_timings_example_valid : ValidSchedule (set_slots exI (to_timings exI exT exM)).
+Proof. exact @ex_schedule_by_theorem. Qed.
+Print Assumptions C07_to_timings_example_valid.
+
+(* a monomorphism that maps a producer after its consumer is rejected by check_schedule (and by check_mono: ex_bad_mono) *)
+Theorem C07_to_timings_example_bad : check_schedule (set_slots exI (to_timings exI exT exM')) = false.
+Proof. exact @ex_bad_schedule. Qed.
+Print Assumptions C07_to_timings_example_bad.
 
